@@ -213,7 +213,8 @@ def connStep (other : Circuit) (mapping : Dict Label) (pre : String) (right : Bo
             let c1 := ops.foldl (fun c o => c.addUser o lbl) st.c
             let c2 := if c1.hasGate lbl then c1.setGate ⟨lbl, g.ty, ops⟩
                       else { c1 with gates := c1.gates ++ [⟨lbl, g.ty, ops⟩] }
-            .ok ⟨c2, st.o2n, st.forBlock⟩
+            .ok ⟨c2, st.o2n, if g.ty != INPUT && !st.forBlock.contains lbl
+                              then st.forBlock ++ [lbl] else st.forBlock⟩
       else .ok st
 
 /-- the tail of `connect_circuit`: outputs, inputs, blocks -/
